@@ -33,7 +33,7 @@ def run_one(patch, props, jobs):
         for p in props:
             env = dict(os.environ, VERIF_REPO=repo, VERIF_EVIDENCE_DIR=os.path.join(scr, "ev"),
                        VERIF_REPLAY_DIR=os.path.join(scr, "rp"), VERIF_JOBS=str(jobs), VERIF_TIMEOUT="900")
-            r = subprocess.run(["./check", p, "quick"], cwd=VERIF, env=env, capture_output=True, text=True)
+            r = subprocess.run(["./check", p, "quick"], cwd=VERIF_RUN, env=env, capture_output=True, text=True)
             buckets = sorted(set(re.findall(r"bucket=(\S+)", r.stdout)))[:4]
             out[p] = {"rc": r.returncode, "buckets": buckets}
         return out
@@ -41,8 +41,29 @@ def run_one(patch, props, jobs):
         shutil.rmtree(scr, ignore_errors=True)
 
 
+def snapshot():
+    """run the checks from a copy of the COMMITTED /verif so that edits in progress cannot disturb a run"""
+    global VERIF_RUN
+    snap = tempfile.mkdtemp(prefix="vfsnap.", dir="/tmp")
+    subprocess.run(f"git -C {VERIF} archive HEAD | tar -x -C {snap}", shell=True, check=True)
+    VERIF_RUN = snap
+    return snap
+
+
+VERIF_RUN = VERIF
+
+
 def main():
     args = sys.argv[1:]
+    snap = snapshot() if "--live" not in args else None
+    try:
+        _main(args)
+    finally:
+        if snap:
+            shutil.rmtree(snap, ignore_errors=True)
+
+
+def _main(args):
     all_checks = "--all-checks" in args
     jobs = 4
     if "--jobs" in args:
